@@ -357,6 +357,9 @@ class MarshalSerializer(SerializerBase):
             if obj.typecode == 'u':
                 return obj.tounicode()
             return obj.tolist()
+        if type(obj) in (list, tuple):
+            # also convert the members of a sequence (the failed member of a batch reply is an exception wrapper in a list)
+            return type(obj)(value if isinstance(value, marshalable_types) else self.convert_obj_into_marshallable(value) for value in obj)
         if isinstance(obj, marshalable_types):
             return obj
         return self.class_to_dict(obj)
